@@ -173,8 +173,15 @@ func c17Check(in c17Input) string {
 	if dot == "" {
 		return "GetDOT returned an empty string"
 	}
+	// models scaled up by the generator (dozens to hundreds of nodes): fewer repetitions, a sample of the label pairs
+	labels := rg.Labels()
+	large := len(rg.Nodes) > 40
+	reps := 10
+	if large {
+		reps = 3
+	}
 	// DOT stability over builds
-	for i := 0; i < 10; i++ {
+	for i := 0; i < reps; i++ {
 		g2, err := graph.NewAuthorizationModelGraph(m.Proto())
 		if err != nil {
 			return "rebuild failed: " + describe(err)
@@ -184,7 +191,7 @@ func c17Check(in c17Input) string {
 		}
 	}
 	// reversal
-	for rep := 0; rep < 10; rep++ {
+	for rep := 0; rep < reps; rep++ {
 		r, err := g.Reversed()
 		if err != nil || r == nil {
 			return "Reversed failed: " + describe(err)
@@ -219,9 +226,19 @@ func c17Check(in c17Input) string {
 			continue
 		}
 		// path queries: all ordered label pairs
-		labels := rg.Labels()
+		pairStride, pairNo := 1, 0
+		if n := len(labels) * len(labels); n > 2500 {
+			pairStride = n/2500 + 1 // a deterministic sample of about 2500 ordered pairs
+			if pairStride%len(labels) == 0 {
+				pairStride++
+			}
+		}
 		for _, a := range labels {
 			for _, b := range labels {
+				pairNo++
+				if pairNo%pairStride != 0 {
+					continue
+				}
 				wantP := rg.Reach(a, b)
 				p1, err1 := g.PathExists(a, b)
 				p2, err2 := r.PathExists(b, a)
@@ -269,7 +286,11 @@ func c17Check(in c17Input) string {
 	if strings.Contains(dot, "01") && (strings.Contains(dot, "union:") || strings.Contains(dot, "intersection:") || strings.Contains(dot, "exclusion:")) {
 		return "DOT text contains an operator's unique (ULID) label"
 	}
-	// cycles
+	// cycles (GetCycles enumerates every elementary cycle, which is exponential: asked only when a budgeted enumeration
+	// on the reference graph finishes)
+	if large && !rg.CyclesEnumerable(200000) {
+		return ""
+	}
 	flags := fmt.Sprintf("%+v", g.GetCycles())
 	if rg.HasPureComputedCycle() && !strings.Contains(flags, "hasCyclesAtCompileTime:true") {
 		return "two or more relations form a cycle of pure computed usersets but GetCycles reports " + flags
